@@ -43,6 +43,15 @@ def run_jobs(exe, jobs, wd, tag, nsh=8):
             allres += res
             if rc != 0:
                 crashes.append((rc, tail, jobs[i::nsh][len([r for r in res if not r["id"].endswith(":init")]):][:1]))
+                # the event trace of a shard that died ends inside an event (possibly inside a line): keep what is complete
+                tf_ = os.path.join(wd, "%s%d.ndjson" % (tag, i))
+                if os.path.exists(tf_):
+                    data_ = open(tf_).read()
+                    ls_ = data_[:data_.rfind("\n") + 1].splitlines() if "\n" in data_ else []
+                    k_ = len(ls_)
+                    while k_ > 0 and '"Begin"' not in ls_[k_ - 1]:
+                        k_ -= 1
+                    open(tf_, "w").write("".join(x + "\n" for x in ls_[:max(k_ - 1, 0)]))
     return allres, crashes, [os.path.join(wd, "%s%d.ndjson" % (tag, i)) for i in range(nsh)]
 
 
